@@ -359,6 +359,17 @@ def check(run):
     run.check(bool(requeue) and bool(arm2) and all(q.any_precedes(pd, [a.site for a in arm2], r) for r in requeue), 'R4', 'armed-retransmit', T + '::packet_dropped', pd.loc(),
               'the dropped segment is queued for retransmission without re-assigning p.drop_fun (the dropping hop moved it out before invoking it): a second drop of the same segment is silent and the stream stalls forever',
               'p.drop_fun re-assigned before the segment is queued for retransmission')
+    run.clause('R4 every DROPPABLE packet a socket emits carries a drop callback: payload segments (above) and the SYN (droppable by packet::ok_to_drop) - otherwise a tail-dropped SYN is lost silently and the connect never completes')
+    sic = fx.fn1('sim::simulation::internal_connect')
+    run.touch(sic)
+    syn_fwd = [c for c in sic.calls() if q.callee_name(c) == 'sim::forward_packet']
+    arm3 = [a for a in q.field_accesses(sic, {P + '::drop_fun'}) if a.kind == 'assign']
+    if not syn_fwd:
+        run.broke('simulation::internal_connect no longer forwards the SYN (anchor vanished)')
+    if True:    # C10 requires (and its check decides) that ok_to_drop() is true for SYN packets
+        run.check(bool(arm3) and all(q.any_precedes(sic, [a.site for a in arm3], c) for c in syn_fwd), 'R4', 'armed-syn', 'sim::simulation::internal_connect', sic.loc(syn_fwd[0]) if syn_fwd else sic.loc(),
+                  'the SYN is droppable (packet::ok_to_drop) but is forwarded without a drop callback: when a queue on its way is full (another connection from the same node is sending) it is discarded silently, nothing retransmits it, and the connect never completes although the acceptor is listening with an accept outstanding',
+                  'p.drop_fun assigned before the SYN is forwarded')
     qi = fx.fn1('sim::queue::incoming_packet')
     mvd = [a for a in q.field_accesses(qi, {P + '::drop_fun'}) if a.kind == 'move']
     run.ok('R4', 'drop-moves-callback-out', 'sim::queue::incoming_packet', qi.loc(), 'fact used above: the dropping hop moves drop_fun out of the packet before invoking it (%d site)' % len(mvd), nontrivial=False)
@@ -369,6 +380,10 @@ def check(run):
     run.clause('R1 no closure, handler or packet field is filled by std::move of an object that a later iteration of the same loop moves again (moved-from reuse: only the first segment would carry its drop callback / only the first completion its handler)')
     nmv = engines.moved_in_loop(run, [f_ for f_ in fx.repo_functions() if f_.file.startswith(simlib.REPO_PREFIX + 'src/')])
     run.ok('R1', 'moved-from-in-loop', 'scan', '', 'std::move sites inside loops examined: %d' % nmv, nontrivial=False)
+    run.clause('window arithmetic does not overflow for any configured MTU: no product of two run-time sizes is evaluated in a 32-bit integer (shared with C20)')
+    nprod = engines.int_products(run, [f_ for f_ in fx.repo_functions(raw=True) if f_.file.startswith(simlib.REPO_PREFIX + 'src/') or f_.file.startswith(simlib.REPO_PREFIX + 'include/')])
+    if nprod < 3:
+        run.broke('fewer than 3 products of run-time values found in the library (%d; 4 confirmed by hand)' % nprod)
     run.clause('a reused socket object delivers: close(ec) resets every per-connection field (sequence numbers, windows, queues) on every normal path, so the next connection\'s first segment is the one the receiver expects (shared with C05/C07)')
     import p05
     p05.close_resets_rule(run)
